@@ -845,7 +845,7 @@ def corpus():
 
 def run(ctx):
     rng = ctx.rng
-    n = 170 if ctx.tier == "quick" else 4000
+    n = 220 if ctx.tier == "quick" else 4000
     if ctx.replay:
         rp = json.load(open(ctx.replay))
         cases = [rp["case"]]
@@ -932,6 +932,6 @@ MANIFEST = {
              "section_atomic_any_family and section_atomic (any body as a finite interaction tree, any refusal position, any failing PreCommit set: Committed => published view = atomic execution "
              "of the body, Aborted/Crashed => published view unchanged, dirty set empty); sections_atomic (any list of sections); abort_only_if_blocked; retry_starts_from_last_commit; "
              "transactional_kinds_never_panic; full_statement refuted for SingleOutputChan and relaxedMailboxesRemote (known finding: send inside WriteValue, Abort panics) and proved for all other kinds."),
-    "level_note": ("Trusted: Coq kernel; the hand-written model (tie = differential execution of real contexts on generated sections with injected failures: 170 quick / 4000 thorough cases); "
+    "level_note": ("Trusted: Coq kernel; the hand-written model (tie = differential execution of real contexts on generated sections with injected failures: 220 quick / 4000 thorough cases); "
                    "ghost stores for channel/badger/file system/TCP. CRDT, 2PC, nested archetypes, failure detector are covered by C13/C11 models, not here."),
 }
